@@ -26,7 +26,7 @@ static void* uv_dequeue_internal(const uscxml_ctx* ctx) {
 static void* uv_dequeue_external(const uscxml_ctx* ctx) {
 	if (eq_h == eq_t) return NULL;
 	cur_e = eq[eq_h++];
-	printf("bpe:%s ", cur_e.name);
+	printf("xe bpe:%s ", cur_e.name);     /* xe: the event comes from the external queue (a macrostep ended) */
 	return &cur_e;
 }
 
